@@ -105,7 +105,7 @@ Proof. exact surv_recv_estate_after_deadline. Qed.
 Print Assumptions survey_recv_estate_after_deadline.
 
 (* the expiry event: receives pending at the deadline complete with NNG_ETIMEDOUT, the id is retired,
-   nothing is delivered (user aios have no timeout of their own: the expiry is the clamped one) *)
+   nothing is delivered (this is the clamped expiry; a receive's own shorter timeout is survey_recv_own_timeout_retires) *)
 Theorem survey_pending_times_out : forall fx s now k c a s' outs,
   kget k (sv_ctxs s) = Some c -> In a (sc_rq c) -> (sc_expire c < Z.of_N now)%Z ->
   surv_step fx s (PTick now) = (s', outs) ->
@@ -114,6 +114,17 @@ Theorem survey_pending_times_out : forall fx s now k c a s' outs,
   (forall a' rv x, In (Complete a' rv x) outs -> rv = E_TIMEDOUT /\ x = None).
 Proof. exact surv_pending_times_out. Qed.
 Print Assumptions survey_pending_times_out.
+
+(* a receive whose own timeout ends before the survey's deadline (the link layer's PCancel a 5), or one that
+   the application cancels: it completes with that error, nothing is delivered, the survey is retired (as coded) *)
+Theorem survey_recv_own_timeout_retires : forall fx s a rv k c s' outs,
+  kget k (sv_ctxs s) = Some c -> In a (sc_rq c) ->
+  (forall k' c', In (k', c') (sv_ctxs s) -> In a (sc_rq c') -> k' = k) ->
+  surv_step fx s (PCancel a rv) = (s', outs) ->
+  outs = [Complete a rv None] /\
+  exists c', kget k (sv_ctxs s') = Some c' /\ sc_survey c' = 0%N /\ sc_rq c' = remove_id a (sc_rq c) /\ sc_lmq c' = sc_lmq c.
+Proof. exact surv_recv_cancel_retires. Qed.
+Print Assumptions survey_recv_own_timeout_retires.
 
 (* late responses: from a state in which the context has nothing pending and the clock is at or past the
    deadline (reached when the expiry event has run, or by time passing with no receive posted), no history
